@@ -553,7 +553,7 @@ def tags_grid(si):
     return tags
 
 
-GRID_SECTIONS = {"grid", "spacing", "size", "nmax", "status", "area", "area_views_agree", "q", "qr", "iter", "base", "topo_model_agrees"}
+GRID_SECTIONS = {"grid", "spacing", "length", "shape", "status_views_agree", "size", "nmax", "status", "area", "area_views_agree", "q", "qr", "iter", "base", "topo_model_agrees"}
 GRID_TB = ["tables of the grid model are regenerated from raster_grid.hpp / profile_grid.hpp / base.hpp by translate.py on every run",
            "xtensor view assignment semantics of set_nodes_status modelled by hand (tied by exhaustive border-mix correspondence)"]
 
